@@ -97,7 +97,7 @@ def main(ctx, replay=None):
         for n, (kind, arg) in enumerate(plan):
             kw = dict(lattice=bool(n % 2), interpolator=str(rng.choice(["lsq_poly", "spline", "lagrange", "krogh"])), order=3,
                       settings={"NT": int(rng.integers(3, 9)), "DT": float(rng.choice([50, 100, 250])), "T_MIN": float(rng.choice([0, 0, 100, 300])),
-                                "NTV": int(rng.integers(7, 15))})
+                                "NTV": int(rng.integers(7, 15)), "volume_ratio": float(rng.choice([1.1, 1.2, 1.2, 1.35]))})
             if n % 4 == 1:
                 kw["nv_static"] = 4                       # the smallest static table the cubic fit admits
             ds = system_dataset(rng, exports, arg, **kw) if kind == "sys" else free_dataset(rng, extra_shear=arg, **kw)
